@@ -250,6 +250,16 @@ theorem C09_packed_first (cfg : Cfg) (ps : List Plugin) (r : Req) (ok : Bool) (r
   have : rest.isEmpty = false := by cases rest <;> simp_all
   simp [step, hc, hd, this]
 
+/-- **C09 a rejected connection stops reading.**  Once a request was rejected
+(`raise`: the connection is flushing-then-closing, or closed), no further client
+byte is processed: whatever arrives — further requests, any bytes, in the same
+read or later — reaches no plugin and no upstream. -/
+theorem C09_reject_stops_reading (cfg : Cfg) (ps : List Plugin) (st : St)
+    (h : st.closing = true ∨ st.down = true) (raw rest : Bytes) (more : List (Req × Bytes)) (r : Req) (ok : Bool) :
+    step cfg ps st (.cdata raw more) = (st, []) ∧ step cfg ps st (.first r ok rest more) = (st, []) ∧
+    step cfg ps st .first400 = (st, []) := by
+  rcases h with h | h <;> simp [step, h]
+
 /-- **C09 `handle_upstream_chunk`.**  The client is queued exactly the chunk as
 returned by the last plugin when all return one, and nothing when a plugin
 returns None; nothing goes to the upstream either way. -/
